@@ -9,9 +9,15 @@ then every teardown hook with the exception of the request (or None) — the ord
 
 
 class _Request(object):
-    """stand-in for the `flask.request` proxy: per-request attribute storage; `reset()` starts a new request"""
-    def reset(self):
+    """stand-in for the `flask.request` proxy: per-request attribute storage.  Like Flask's request-context stack,
+    `push()` starts a new request (fresh attributes) and returns a token; `pop(token)` returns to the enclosing one."""
+    def push(self):
+        saved = dict(self.__dict__)
         self.__dict__.clear()
+        return saved
+    def pop(self, saved):
+        self.__dict__.clear()
+        self.__dict__.update(saved)
 
 
 request = _Request()
